@@ -2,6 +2,8 @@ import TongoProofs.Lemmas.CellHashTree
 import TongoProofs.Lemmas.CellTable
 import TongoProofs.Lemmas.HashMemo
 import TongoProofs.Lemmas.CellNoPanic
+import TongoProofs.Lemmas.CellErr
+import TongoProofs.C07
 import TongoGen.LevelMask
 /-! Property C02 — cell hash, depth and level follow the TON representation-hash definition.
 
@@ -236,6 +238,51 @@ theorem hash_structural (H : List UInt8 → List UInt8) (heap1 heap2 : Memo.Heap
   | err e => rw [e2] at a2; simp only [Memo.Agrees] at a2; rw [s1] at a2; cases a2
   | panic e => rw [e2] at a2; simp only [Memo.Agrees] at a2; rw [s1] at a2; cases a2
 
+
+/-- **Hashing the cells of any parsed bag of cells is total and agrees with the definition** (composition with C07,
+agent boc's `parseBoc`/`parse_sound`). For every byte string: if the model of `DeserializeBoc` returns cells, then every
+row `i` of the result denotes a finite tree `c` (fuel 1026 suffices), the executable memoised hashing the driver runs
+(`Table.infos`) returns for that row exactly `Cell.info H c`, which is a value — whose `Hash(l)`/`Depth(l)` never
+panic — or the depth error, never a panic and no other error; and whenever `c` satisfies the exotic-cell rules the
+value is the one of the TON definition (`Spec.hashAt`/`depthAt`/`level`), the depth error occurring exactly for
+`Spec.tooDeep c`. -/
+theorem parsed_cells_hash_total (bs : Boc.Bytes) (hlen : bs.length < Boc.two63) (t : Table) (roots : List Nat)
+    (hp : Boc.parseBoc bs = .ok (t, roots)) (H : List UInt8 → List UInt8) :
+    ∀ i, i < t.size → ∃ c, Table.unfold t (maxDepth + 2) i = some c ∧
+      (Table.infos H t)[i]? = some (Cell.info H c) ∧
+      ((∃ info, Cell.info H c = .ok info ∧
+          ∀ l, (info.hashAt l).isPanic = false ∧ (info.depthAt l).isPanic = false) ∨
+        Cell.info H c = .err "depth is too big") ∧
+      (Spec.WFExotic c →
+        (Spec.tooDeep c = true → Cell.info H c = .err "depth is too big") ∧
+        (Spec.tooDeep c = false → ∃ info, Cell.info H c = .ok info ∧
+          (∀ l, l ≤ 4 → info.hashAt l = .ok (Spec.hashAt H c l) ∧ info.depthAt l = .ok (Spec.depthAt c l)) ∧
+          LevelMask.level info.mask = Spec.cellLevel c)) := by
+  intro i hi
+  obtain ⟨hrows, _, ds, _, hrank⟩ := C07.parse_sound bs hlen t roots hp
+  have hsome := Boc.unfold_isSome_depth t hrows ds hrank (maxDepth + 2) i hi (by have := (hrank i hi).1; omega)
+  obtain ⟨c, hc⟩ := Option.isSome_iff_exists.mp hsome
+  have htree := BocHash.unfold_treeOK t hrows _ i c hc
+  obtain ⟨hnp, hok⟩ := BocHash.Cell.info_ok H c htree
+  refine ⟨c, hc, infos_refines H t _ i c hc, ?_, ?_⟩
+  · cases hinfo : Cell.info H c with
+    | panic p => exact absurd hinfo (hnp p)
+    | err e => right; rw [info_err H c e hinfo]; rfl
+    | ok info =>
+      left
+      refine ⟨info, rfl, fun l => ?_⟩
+      have io := hok info hinfo
+      constructor
+      · cases h : info.hashAt l with
+        | panic p => exact absurd h (BocHash.hashAt_no_panic info io l p)
+        | ok _ => rfl
+        | err _ => rfl
+      · cases h : info.depthAt l with
+        | panic p => exact absurd h (BocHash.depthAt_no_panic info io l p)
+        | ok _ => rfl
+        | err _ => rfl
+  · intro hwf
+    exact ⟨fun hd => (good_cell H c (wfExotic_wfSizes c hwf)).2 hd, fun hd => impl_eq_spec H c hwf hd⟩
 
 /-! ### non-vacuity: a tree over all five cell types with non-zero masks satisfies the hypotheses (test on a literal) -/
 
